@@ -59,17 +59,29 @@ def PoEntry.sourceForm (e : PoEntry) (i : Nat) : Str :=
   | _ + 1, some p => p
   | _ + 1, none => e.msgid
 
-/-- both templates are inside the `%` fragment and use the same set of placeholders -/
-def samePlaceholders (s src : Str) : Bool :=
+/-- the keys msgstr[i] may use: those of the source form it translates; the *singular* msgstr of a
+    plural entry may in addition show the count and whatever else the plural source form shows
+    (a catalogue whose plural rule sends counts other than 1 to msgstr[0] has to) -/
+def PoEntry.mayKeys (e : PoEntry) (i : Nat) : List Str :=
+  match i, e.msgidPlural with
+  | 0, some p => placeholders e.msgid ++ placeholders p
+  | 0, none => placeholders e.msgid
+  | _ + 1, some p => placeholders p
+  | _ + 1, none => placeholders e.msgid
+
+/-- both templates are inside the `%` fragment; the translation uses every placeholder of the
+    source form and nothing outside `may` -/
+def formOK (s src : Str) (may : List Str) : Bool :=
   match parseFmt s, parseFmt src with
-  | .ok a, .ok b => sameSet (placeholdersOf a) (placeholdersOf b)
+  | .ok a, .ok b => subset (placeholdersOf b) (placeholdersOf a) && subset (placeholdersOf a) may
   | _, _ => false
 
 def entryFormsOK (e : PoEntry) : Nat → List Str → Bool
   | _, [] => true
-  | i, s :: rest => samePlaceholders s (e.sourceForm i) && entryFormsOK e (i + 1) rest
+  | i, s :: rest => formOK s (e.sourceForm i) (e.mayKeys i) && entryFormsOK e (i + 1) rest
 
-/-- every msgstr[i] is well-formed and uses exactly the placeholders of its source form -/
+/-- every msgstr[i] is well-formed, uses every placeholder of its source form and only keys it may use
+    (for i ≥ 1 and for plain entries: exactly the placeholders of the source form) -/
 def PoEntry.placeholdersOK (e : PoEntry) : Bool := entryFormsOK e 0 e.msgstr
 
 def Catalogue.placeholdersOK (c : Catalogue) : Bool := c.entries.all PoEntry.placeholdersOK
